@@ -53,6 +53,8 @@ def main():
     ap.add_argument("--sids", default="0")
     ap.add_argument("--out", default=None)
     ap.add_argument("--no-exclude", action="store_true")
+    ap.add_argument("--sub", action="store_true",
+                    help="soak the fixed sub-sample #s1 of each workload")
     ap.add_argument("--nproc", type=int, default=None)
     a = ap.parse_args()
     if "-" in a.sids:
@@ -72,6 +74,8 @@ def main():
                 excluded[ex] = excluded.get(ex, 0) + 1
                 continue
             wids.append(f"gen:{i}")
+    if a.sub:
+        wids = [w + "#s1" for w in wids]
     units = [grid.learn_unit(w, s) for w in wids for s in sids]
     t0 = time.time()
 
